@@ -153,6 +153,8 @@ class Ctx:
         self.scn = scn
         self.runners = [ServiceRunner(accept_delay=r.get("accept_delay", 0.05)) for r in scn["runners"]]
         self.services = {}
+        self.ended = set()          # runners whose accept() has returned
+        self.accepting = set()      # runners whose accept() is in progress
         for i, r in enumerate(self.runners):
             threading.Thread(target=self._watch_running, args=(i, r), daemon=True).start()
 
@@ -178,8 +180,8 @@ class Ctx:
     def do_execute(self, who, rid, pid):
         spec = self.scn["payloads"][str(pid)]
         fl = spec["flavour"]
-        if not self.runners[rid].running.is_set():
-            return            # the runtime is (being) stopped: scripted callers stop calling
+        if rid in self.ended or (not self.runners[rid].running.is_set() and rid not in self.accepting):
+            return            # the run call has ended (or never began): scripted callers stop calling
         fn = make_payload(self, pid, executed=True)
         args = decode_args(spec.get("args", []))
         kwargs = {k: decode_arg(v) for k, v in spec.get("kwargs", {}).items()}
@@ -204,7 +206,7 @@ class Ctx:
             import concurrent.futures
             if e is not want and (isinstance(e, (asyncio.CancelledError, concurrent.futures.CancelledError,
                                                  trio.RunFinishedError, trio.Cancelled))
-                                  or not self.runners[rid].running.is_set()):
+                                  or not self.runners[rid].running.is_set() or rid in self.ended):
                 out = ["aborted", type(e).__name__]
             elif e is want:
                 out = ["raise", spec_end(spec)[1], "same"]
@@ -251,11 +253,14 @@ class Ctx:
 
     def do_accept(self, who, rid):
         log("AcceptCall", who, rid)
+        self.accepting.add(rid)
         try:
             self.runners[rid].accept()
             out = ["returned"]
         except BaseException as e:  # noqa
             out = classify_accept_exc(e)
+        self.ended.add(rid)
+        self.accepting.discard(rid)
         log("AcceptEnd", who, rid, out)
 
 
